@@ -196,6 +196,9 @@ func (h *schedHarness) judge(x *explore.Exec, sc *explore.Sched) *hx.Violation {
 	for t, p := range x.Panics {
 		return mk("panic", fmt.Sprintf("thread %d panicked: %s", t, p))
 	}
+	if x.Deadlock {
+		return mk("deadlock", fmt.Sprintf("every unfinished thread stayed blocked inside the library for %v under this schedule", explore.DeadlockTimeout))
+	}
 	if sc.Abort != "" {
 		return mk("shared-write", sc.Abort)
 	}
@@ -795,7 +798,7 @@ func checkC17(c *hx.Checker) {
 		"(3b) cold-start pass (supplementary): per exploration subject and mode (16 goroutines load+Run / one load then 16 concurrent Runs) fresh processes whose very first use of the library is concurrent; a crash of such a process (e.g. concurrent map writes) or a deviating result is reported. "+
 		"states = scheduling points visited, transitions = thread steps executed; non-trivial = every exploration and frozen case", len(subs), len(expl), b2, b3, nGlobals())
 	c.Assumptions = []string{"scheduling points are at operator-phase granularity (no hook inside gonnx is needed: Model.GetOperator is an exported field); interleavings inside one phase are covered only for Model-owned state (write trap) and by the supplementary free-running passes",
-		"the Go memory model's weak behaviours are not modelled (irrelevant once no shared write exists)", "a fault inside a goroutine spawned by gorgonia cannot be recovered and would abort the check process (reported by run.sh as a failure)"}
+		"a thread that blocks on synchronisation of the library itself (a lock held by a thread waiting for the baton) is detected by a 400 ms timeout and taken out of the enabled set until it reappears; from then on threads overlap in real time and that execution is no longer deterministic (never the case on the pinned tree, which has no synchronisation)", "the Go memory model's weak behaviours are not modelled (irrelevant once no shared write exists)", "a fault inside a goroutine spawned by gorgonia cannot be recovered and would abort the check process (reported by run.sh as a failure)"}
 	// (0) global-state pass (sequential, before any parallel phase): after a warm-up, loading and running a
 	// model must not change any package-level variable of the library. A change is an *indicator* (it may be
 	// legitimately synchronised); it becomes a violation only when the free-running passes confirm interference.
@@ -856,6 +859,9 @@ func checkC17(c *hx.Checker) {
 				}
 				if ex.Capped {
 					c.Capped = true
+				}
+				if ex.Diverged > 0 {
+					c.Extra["schedules_abandoned_after_real_blocking"] = ex.Diverged
 				}
 				mu.Unlock()
 				if viol != nil {
